@@ -51,8 +51,44 @@ def canon_val(v):
     return '?%r' % (v,)
 
 
+def _views(msg, d):
+    """the other views of a decoded message (attribute access, asdict(enum_as_int=True), to_json()) show the
+    values asdict() shows; returns a description of the first difference"""
+    import base64
+    import json
+    for k, v in d.items():
+        a = getattr(msg, k, '<no such attribute>')
+        if type(a) is not type(v) or a != v:
+            return 'attribute %s=%r asdict=%r' % (k, a, v)
+    di = msg.asdict(enum_as_int=True)
+    if list(di) != list(d):
+        return 'asdict(enum_as_int=True) keys %r' % (list(di),)
+    for k, v in d.items():
+        want = int(v) if isinstance(v, enum.Enum) else v
+        if isinstance(v, enum.Enum) and di[k] is v:
+            continue        # (the library leaves some enumerations, e.g. the rate-of-turn codes, as they are)
+        if type(di[k]) is not type(want) or di[k] != want:
+            return 'asdict(enum_as_int=True) %s=%r asdict=%r' % (k, di[k], v)
+    dj = json.loads(msg.to_json())
+    if list(dj) != list(d):
+        return 'to_json keys %r' % (list(dj),)
+    for k, v in d.items():
+        if isinstance(v, enum.Enum):
+            want = v.value
+        elif isinstance(v, (bytes, bytearray)):
+            want = base64.b64encode(v).decode('ascii')
+        else:
+            want = v
+        if dj[k] != want or (isinstance(want, bool) != isinstance(dj[k], bool)):
+            return 'to_json %s=%r asdict=%r' % (k, dj[k], v)
+    return None
+
+
 def canon_msg(msg):
     d = msg.asdict()
+    diff = _views(msg, d)
+    if diff:
+        return 'READERS-DIFFER views of one decoded message: ' + diff
     d.pop('full_name', None)
     return type(msg).__name__ + '|' + ';'.join('%s=%s' % (k, canon_val(v)) for k, v in d.items())
 
@@ -415,6 +451,24 @@ def run_stream(fe, tbq, lines, indexed=True):
         if alt != ref_d:
             return 'READERS-DIFFER for-loop=%d deliveries next()=%s' % (len(ref_d), alt if isinstance(alt, str) else
                                                                        '%d deliveries' % len(alt))
+    if fe == 'bytestream' and not tbq and crash is None:
+        # a preprocessor that hands every line on as it is changes nothing
+        try:
+            alt = [show_sentence(m) for m in ST.ByteStream(list(lines), preprocessor=_Identity())]
+        except Exception as e:  # noqa
+            alt = err(e)
+        if alt != [t for _, k, t in events if k == 'D']:
+            return 'READERS-DIFFER ByteStream=%d deliveries with-identity-preprocessor=%s' % (
+                len([1 for _, k, _ in events if k == 'D']), alt if isinstance(alt, str) else '%d deliveries' % len(alt))
+    if fe == 'iter' and not tbq and crash is None and len(lines) == 1:
+        # a single line may be handed over as it is instead of in a list
+        try:
+            alt = [show_sentence(m) for m in ST.IterMessages(lines[0])]
+        except Exception as e:  # noqa
+            alt = err(e)
+        if alt != [t for _, k, t in events if k == 'D']:
+            return 'READERS-DIFFER IterMessages([line])=%d deliveries IterMessages(line)=%s' % (
+                len([1 for _, k, _ in events if k == 'D']), alt if isinstance(alt, str) else '%d deliveries' % len(alt))
     if fe == 'iter' and not tbq and crash is None:
         # the same lines as text through IterMessages.from_strings: the same deliveries
         try:
@@ -429,6 +483,11 @@ def run_stream(fe, tbq, lines, indexed=True):
         except Exception as e:  # noqa
             return 'READERS-DIFFER from_strings raised ' + err(e)
     return _emit(events, crash)
+
+
+class _Identity:
+    def process(self, line):
+        return line
 
 
 def _by_next(reader, bound):
